@@ -1304,9 +1304,27 @@ impl Analyzable for TxDef {
         let references = self.references.analyze(Some(final_scope.clone()));
         let collateral = self.collateral.analyze(Some(final_scope.clone()));
 
+        // input blocks are keyed by their lower-cased name when lowered (the collateral block by
+        // "collateral"), so that's how they have to be unique: blocks sharing a key would share
+        // one resolved utxo set
+        let mut seen = std::collections::HashSet::new();
+
+        if !self.collateral.is_empty() {
+            seen.insert("collateral".to_string());
+        }
+
+        let duplicate_inputs = self
+            .inputs
+            .iter()
+            .filter(|x| !seen.insert(x.name.to_lowercase()))
+            .map(|x| Error::DuplicateDefinition(x.name.clone()))
+            .map(AnalyzeReport::from)
+            .fold(AnalyzeReport::default(), |acc, x| acc + x);
+
         self.scope = Some(final_scope);
 
         params
+            + duplicate_inputs
             + locals
             + inputs
             + outputs
